@@ -536,3 +536,14 @@ def equal_hash_pairs(rng, n):
         if b != a and std_hash_model(a) == std_hash_model(b):
             out.append((a, b))
     return out
+
+
+def equal_hash_group(rng, size):
+    """`size` different 16-byte words that all have one std::hash code (libstdc++)."""
+    a = bytes(rng.choice(b'abcdefghijklmnopqrstuvwxyz_0123456789') for _ in range(16))
+    out = [a]
+    while len(out) < size:
+        b = equal_hash_partner(a, bytes(rng.choice(b'abcdefghijklmnopqrstuvwxyz') for _ in range(8)))
+        if b not in out and std_hash_model(a) == std_hash_model(b):
+            out.append(b)
+    return out
